@@ -18,7 +18,7 @@ SPEC = {
     'bounds': {'quick': {'enumerated': 'length 1 exhaustive + length 2 sampled 2%', 'random_asts_per_shard': 100},
                'thorough': {'enumerated': 'length 1-2 (40%)', 'random': 'until the time budget'}},
     'floor': {'quick': 200000, 'thorough': 2000000},
-    'required_counters': ['relation_checks', 'icase_vectors', 'win_separator_checks', 'win_vs_unix_icase_checks', 'drive_checks',
+    'required_counters': ['fnmatch_slash_patterns', 'relation_checks', 'icase_vectors', 'win_separator_checks', 'win_vs_unix_icase_checks', 'drive_checks',
                           'literal_exact_checks', 'bytes_checks'],
     'budget': {'quick': 45, 'thorough': 480},
     'shard_timeout': {'quick': 400, 'thorough': 1500},
@@ -329,6 +329,20 @@ def run(ctx):
             extra = ('EXTMATCH',) + (('GLOBSTAR',) if k % 4 == 0 else ()) + (('DOTMATCH',) if k % 8 < 4 else ())
             with ctx.case(label=gen.ser(toks)):
                 check_pattern(ctx, toks, True, extra, k, gen.path_universe(toks, rng, cap=120), bytes_too=(k % 6 == 0))
+        if k % 3 == 0:
+            # file-name mode knows no path segments, but under FORCEWIN `/` and `\` written anywhere (also inside groups)
+            # still denote the same character class
+            toks = gen.rand_tokens(rng, maxtok=rng.randint(2, 5), depth=rng.randint(1, 2), alpha='aB/x/')
+            if toks and not gen.ambiguous_adjacency(toks) and not has_set(toks):
+                names = []
+                for _ in range(10):
+                    d = gen.derive(rng, toks, 'aB/x')
+                    if d:
+                        names.append(d)
+                        names.extend(sorted(gen.mutants(rng, d, 'aB/x', 2)))
+                with ctx.case(label=gen.ser(toks)):
+                    ctx.count('fnmatch_slash_patterns')
+                    check_pattern(ctx, toks, False, ('EXTMATCH', 'DOTMATCH'), ('slash', k), names + ['a/B', 'a\\B', '/'], bytes_too=False)
         with ctx.case(label=('drive', k)):
             drive_checks(ctx, rng, k)
     ctx.count('random_asts', k)
